@@ -73,6 +73,9 @@ pub struct Seg {
     /// noise_key, level again) with bit-identical samples inside each stretch
     #[serde(default)]
     pub pattern: u8,
+    /// the gap samples sit at the case's near-boundary value (`RibbonCase::edge_ulps`) instead of clearly outside
+    #[serde(default)]
+    pub gap_edge: bool,
 }
 
 #[derive(Debug, Clone, Serialize, Deserialize, PartialEq)]
@@ -84,6 +87,11 @@ pub struct RibbonCase {
     /// pull-up = factor * (softpot + dropper), factor in [1, 1000]
     pub pullup_factor: f32,
     pub segs: Vec<Seg>,
+    /// Some(k): the gaps marked `gap_edge` use the single value k f32 steps (|k| <= 3) away from the documented boundary
+    /// 1 - dropper/(dropper+softpot). Whether that value is in range is left to the controller (its threshold may be
+    /// rounded differently), but it has to be one or the other for the whole history. C15-only runs.
+    #[serde(default)]
+    pub edge_ulps: Option<i8>,
 }
 
 pub struct Config {
@@ -207,8 +215,21 @@ struct PollRec {
 }
 
 /// execute the case (optionally a metamorphic variant); oracles are armed only for the plain run
-fn execute(case: &RibbonCase, cfg: &Config, lstar: usize, mask: u32, variant: Variant, stats: &mut Stats, rec: &mut Vec<PollRec>) -> Result<(bool, bool), Failure> {
+/// the near-boundary gap value of a case (only in runs that do not judge C16)
+pub fn edge_value(case: &RibbonCase, cfg: &Config, mask: u32) -> Option<f32> {
+    if mask & C16 != 0 || !case.segs.iter().any(|s| s.gap_edge) {
+        return None;
+    }
+    case.edge_ulps.map(|k| {
+        let b = 1.0f32 - (cfg.dr / (cfg.dr + cfg.sp));
+        f32::from_bits((b.to_bits() as i64 + (k.clamp(-3, 3)) as i64) as u32)
+    })
+}
+
+fn execute(case: &RibbonCase, cfg: &Config, lstar: usize, mask: u32, variant: Variant, edge: Option<(f32, bool)>, stats: &mut Stats, rec: &mut Vec<PollRec>) -> Result<(bool, bool), Failure> {
     let (mut r, _) = make(case.rate_idx as usize, cfg.sp, cfg.dr, cfg.pu);
+    let edge_val = edge.map(|e| e.0);
+    let edge_in = edge.map(|e| e.1).unwrap_or(false);
     let plain = variant == Variant::Plain;
     let mut m_pressing = false;
     let mut m_just_pressed = false;
@@ -228,7 +249,6 @@ fn execute(case: &RibbonCase, cfg: &Config, lstar: usize, mask: u32, variant: Va
         if any_short {
             short_run_before_another = true;
         }
-        run.clear();
         let use_alt = match variant {
             Variant::EarlierReplaced(j) => si < j,
             Variant::Plain => false,
@@ -330,11 +350,31 @@ fn execute(case: &RibbonCase, cfg: &Config, lstar: usize, mask: u32, variant: Va
         prev_level = Some(s.level as f64);
         // the gap: out-of-range samples
         let g = 1 + (s.gap % 3) as usize;
+        let at_edge = s.gap_edge && edge_val.is_some();
         for _ in 0..g {
             let lo = cfg.boundary + 1e-3;
-            let v = (lo + s.gap_level.clamp(0.0, 1.0) as f64 * (1.0 - lo)).min(1.0) as f32;
+            let v = if at_edge { edge_val.unwrap_or(1.0) } else { (lo + s.gap_level.clamp(0.0, 1.0) as f64 * (1.0 - lo)).min(1.0) as f32 };
             r.poll(v);
             samples += 1;
+            if at_edge && edge_in {
+                // candidate reading: the controller's threshold lies above this value, it is one more in-range sample
+                run.push(v);
+                let expect = run.len() >= lstar;
+                if expect && !m_pressing {
+                    m_pressing = true;
+                    m_just_pressed = true;
+                    presses += 1;
+                }
+                let real = r.pressing();
+                if plain && mask & C15 != 0 && real != expect {
+                    return Err(Failure::new(
+                        "C15.press_needs_unbroken_capture",
+                        si,
+                        format!("finger_is_pressing() = {} after an unbroken run of {} samples (segment {}, a press needs {})", real, run.len(), si, lstar),
+                    ));
+                }
+                continue;
+            }
             if m_pressing {
                 m_pressing = false;
                 m_just_released = true;
@@ -420,14 +460,42 @@ pub fn run_case(case: &RibbonCase, mask: u32, stats: &mut Stats) -> Result<CaseI
         return Ok(CaseInfo { nontrivial: false });
     }
     let mut rec = vec![];
-    let (nt15, nt16) = execute(case, &cfg, lstar, mask, Variant::Plain, stats, &mut rec)?;
+    let ev = edge_value(case, &cfg, mask);
+    let (nt15, nt16) = match execute(case, &cfg, lstar, mask, Variant::Plain, ev.map(|v| (v, false)), stats, &mut rec) {
+        Ok(x) => x,
+        Err(mut f) => match ev {
+            // a value within 3 f32 steps of the documented boundary may legitimately fall on either side of the
+            // controller's own (rounded) threshold - but it has to be on one side: second candidate reading
+            Some(ev) => {
+                let mut scratch = Stats::default();
+                let mut rec2 = vec![];
+                match execute(case, &cfg, lstar, mask, Variant::Plain, Some((ev, true)), &mut scratch, &mut rec2) {
+                    Ok(x) => {
+                        stats.count("label.edge_value_consistently_in_range", 1);
+                        x
+                    }
+                    Err(f2) => {
+                        f.detail = format!(
+                            "{} [the gap value {:e} ({} f32 steps from 1 - dropper/(dropper+softpot), softpot {} dropper {}) was read as out-of-range (this report) and as in-range ({} at segment {}: {}): the controller's behaviour matches neither reading]",
+                            f.detail, ev, case.edge_ulps.unwrap_or(0), cfg.sp, cfg.dr, f2.rule, f2.step, f2.detail
+                        );
+                        return Err(f);
+                    }
+                }
+            }
+            None => return Err(f),
+        },
+    };
+    if ev.is_some() {
+        stats.count("label.gap_within_3_ulps_of_boundary", 1);
+    }
     if mask & C16 != 0 && case.segs.len() >= 2 {
         // metamorphic (a): replace every sample of the runs before the last pressed segment
         if let Some(j) = rec.iter().rev().find(|p| p.pressed).map(|p| p.seg) {
             if j >= 1 {
                 let mut rec2 = vec![];
                 let mut scratch = Stats::default();
-                execute(case, &cfg, lstar, 0, Variant::EarlierReplaced(j), &mut scratch, &mut rec2)?;
+                execute(case, &cfg, lstar, 0, Variant::EarlierReplaced(j), None, &mut scratch, &mut rec2)?;
                 // compare every poll of segment j onwards
                 let a: Vec<&PollRec> = rec.iter().filter(|p| p.seg >= j && p.pressed).collect();
                 let b: Vec<&PollRec> = rec2.iter().filter(|p| p.seg >= j && p.pressed).collect();
